@@ -9,6 +9,7 @@ import (
 
 	cfg "github.com/lianxiangcloud/linkchain/config"
 	"github.com/lianxiangcloud/linkchain/libs/common"
+	"github.com/lianxiangcloud/linkchain/libs/crypto"
 	lk "github.com/lianxiangcloud/linkchain/libs/cryptonote/types"
 	mempl "github.com/lianxiangcloud/linkchain/mempool"
 	"github.com/lianxiangcloud/linkchain/types"
@@ -33,6 +34,13 @@ type MTx struct {
 	AcceptedAt time.Duration // virtual time of the (last) acceptance
 	StaleAtGen bool          // nonce below the committed nonce when generated
 	External   bool          // never submitted to the node's mempool by the generator
+	// MaybeGood: it may sit in the node's executable list (seen on offer, or
+	// live while MaxReapSize cut the offer).
+	MaybeGood bool
+	// ToCode: the destination held code (per committed blocks) when the
+	// transaction was generated; Target: contract address it creates/calls/kills.
+	ToCode bool
+	Target common.Address
 	// Pure: no account input (a hidden -> hidden/account spend); KIs: its key images.
 	Pure bool
 	KIs  []lk.Key
@@ -62,6 +70,8 @@ type Options struct {
 	Config func(rc *RunCfg, t *kernel.Tape)
 	// AfterStep is called after every driver step (after the offer oracle).
 	AfterStep func(e *Engine)
+	// NoContracts keeps contract transactions out of the mix.
+	NoContracts bool
 	// UTXOShare {num, den}: share of runs with confidential transactions ({0,0}: 2/5).
 	UTXOShare [2]int
 	// NonTrivial adds a condition to the engine's non-triviality rule.
@@ -76,18 +86,19 @@ func KeyImages(tx types.Tx) []lk.Key { return keyImages(tx) }
 
 // RunCfg is the drawn configuration of one run.
 type RunCfg struct {
-	World    WorldCfg
-	Steps    int
-	Clients  int
-	Tight    bool // small pool/queue/reap limits: single-queuer discipline
-	Evict    bool // virtual time may pass the eviction lifetimes
-	UseCache bool
-	UTXO     bool // confidential transactions in the mix
-	Wallets  int
-	W        struct{ Next, Future, Stale, Conflict, Dup, Under, Over, BadGas, Fund, Spend, SpendAcc, KIConflict, KIDup int }
-	A        struct{ Start, Release, Reap, Block, Tick, Extra int }
-	ExtRate  int // of 8: share of block steps that build another proposer's block
-	HeavyPct int // of 8: share of steps that also run the execute-the-offer oracle
+	World     WorldCfg
+	Steps     int
+	Clients   int
+	Tight     bool // small pool/queue/reap limits: single-queuer discipline
+	Evict     bool // virtual time may pass the eviction lifetimes
+	UseCache  bool
+	Contracts bool // contract creation / self-destruct / calls in the mix
+	UTXO      bool // confidential transactions in the mix
+	Wallets   int
+	W         struct{ Next, Future, Stale, Conflict, Dup, Under, Over, BadGas, Fund, Spend, SpendAcc, KIConflict, KIDup, Create, CCall, Kill, ToFuture int }
+	A         struct{ Start, Release, Reap, Block, Tick, Extra int }
+	ExtRate   int // of 8: share of block steps that build another proposer's block
+	HeavyPct  int // of 8: share of steps that also run the execute-the-offer oracle
 }
 
 // Engine is one run.
@@ -111,6 +122,12 @@ type Engine struct {
 	subSeq   int
 	trace    []string
 	steps    int
+
+	contracts     []*Contract
+	contractAt    map[common.Address]*Contract
+	pendingCreate []common.Address // targets of creations generated and not committed yet
+	plans         map[int]*creationPlan
+	codeVariant   int
 
 	U        *UtxoState           // nil: no confidential transactions in this run
 	livePure map[common.Hash]*MTx // accepted spends without account input the oracle still demands
@@ -233,6 +250,11 @@ func drawCfg(c *kernel.Ctx, opt Options) RunCfg {
 	w.Next, w.Future, w.Stale, w.Conflict, w.Dup, w.Under, w.Over, w.BadGas = 10, t.Range(0, 6), t.Range(0, 3), t.Range(0, 3), t.Range(0, 4), t.Range(0, 2), t.Int(2), t.Int(2)
 	a := &rc.A
 	a.Start, a.Release, a.Reap, a.Block, a.Tick = 10, t.Range(6, 14), t.Range(1, 3), t.Range(1, 5), t.Range(0, 2)
+	if !opt.NoContracts && t.Bool(1, 3) {
+		rc.Contracts = true
+		w.Create, w.CCall, w.Kill, w.ToFuture = t.Range(1, 3), t.Range(2, 6), t.Range(1, 3), t.Range(0, 2)
+		rc.World.Balances[0] = new(big.Int).Mul(big.NewInt(1e18), big.NewInt(1000000))
+	}
 	share := opt.UTXOShare
 	if share[1] == 0 {
 		share = [2]int{2, 5}
@@ -274,6 +296,9 @@ func Run(c *kernel.Ctx, opt Options) {
 		defer w.Cleanup()
 		w.OnCommitted = e.onCommitted
 		e.livePure = map[common.Hash]*MTx{}
+		e.contractAt = map[common.Address]*Contract{}
+		e.plans = map[int]*creationPlan{}
+		w.ApplyHook = e.applyWithReceipt
 		if rc.UTXO {
 			seedCrypto(c.Tape.Fork("xcrypto"))
 			e.U = newUtxoState(rc.Wallets)
@@ -525,6 +550,14 @@ func (e *Engine) record(u *User, tx types.Tx, kind string) *MTx {
 	}
 	m.KIs = keyImages(tx)
 	m.BasicOK = kind != "over" && kind != "badgas" && kind != "kidup"
+	if t, ok := tx.(*types.Transaction); ok && t.To() != nil {
+		m.ToCode = e.hasCode(*t.To())
+	}
+	if kind == "create" {
+		if t, ok := tx.(*types.Transaction); ok {
+			e.pendingCreate = append(e.pendingCreate, crypto.CreateAddress(m.From, t.Nonce(), t.Data()))
+		}
+	}
 	e.all = append(e.all, m)
 	e.byHash[h] = m
 	return m
@@ -548,7 +581,7 @@ func (e *Engine) gen() *MTx {
 	t := e.Work
 	w := e.Cfg.W
 	u := e.W.Users[t.Int(len(e.W.Users))]
-	kind := []string{"next", "future", "stale", "conflict", "dup", "under", "over", "badgas", "fund", "spend", "spendacc", "kiconflict", "kidup"}[t.Pick(w.Next, w.Future, w.Stale, w.Conflict, w.Dup, w.Under, w.Over, w.BadGas, w.Fund, w.Spend, w.SpendAcc, w.KIConflict, w.KIDup)]
+	kind := []string{"next", "future", "stale", "conflict", "dup", "under", "over", "badgas", "fund", "spend", "spendacc", "kiconflict", "kidup", "create", "ccall", "kill", "tofuture"}[t.Pick(w.Next, w.Future, w.Stale, w.Conflict, w.Dup, w.Under, w.Over, w.BadGas, w.Fund, w.Spend, w.SpendAcc, w.KIConflict, w.KIDup, w.Create, w.CCall, w.Kill, w.ToFuture)]
 	amt := e.amount(t)
 	to := e.recipient(t, u)
 	gap := uint64(t.Range(1, 3))
@@ -565,6 +598,12 @@ func (e *Engine) gen() *MTx {
 			u = e.W.Users[m.User]
 			c = e.committedNonce(u.Addr)
 		}
+	case "create", "ccall", "kill", "tofuture":
+		m = e.genContract(kind, u, pick)
+		if m != nil && m.User >= 0 {
+			u = e.W.Users[m.User]
+			c = e.committedNonce(u.Addr)
+		}
 	case "dup":
 		if len(e.all) > 0 {
 			// recent ones more often
@@ -573,7 +612,7 @@ func (e *Engine) gen() *MTx {
 			if src.External && !e.isCommitted(src) {
 				break
 			}
-			m = &MTx{Seq: src.Seq, Tx: src.Tx, Hash: src.Hash, From: src.From, User: src.User, Nonce: src.Nonce, Cost: src.Cost, Kind: "dup", BasicOK: src.BasicOK, Pure: src.Pure, KIs: src.KIs, Ins: src.Ins}
+			m = &MTx{Seq: src.Seq, Tx: src.Tx, Hash: src.Hash, From: src.From, User: src.User, Nonce: src.Nonce, Cost: src.Cost, Kind: "dup", BasicOK: src.BasicOK, Pure: src.Pure, KIs: src.KIs, Ins: src.Ins, ToCode: src.ToCode, Target: src.Target}
 			m.StaleAtGen = !m.Pure && m.Nonce < e.committedNonce(m.From)
 			if src.User >= 0 {
 				u = e.W.Users[src.User]
@@ -835,7 +874,10 @@ func (e *Engine) drainClients() {
 				e.W.Release(f.sub)
 				progressed = true
 				e.collect()
-				e.refreshOffer()
+				e.oracle(false)
+				if e.Stopped() {
+					return
+				}
 			}
 		}
 		e.collect()
@@ -848,7 +890,10 @@ func (e *Engine) drainClients() {
 				if e.ProduceFromPool(e.W.MaxTxs()) == nil && e.Stopped() {
 					return
 				}
-				e.refreshOffer()
+				e.oracle(false)
+				if e.Stopped() {
+					return
+				}
 			} else if tries > 12 {
 				return
 			}
@@ -987,7 +1032,10 @@ func (e *Engine) stepBlock() {
 func (e *Engine) ProduceFromPool(maxTxs int) *types.Block {
 	b, site, msg, panicked := e.W.Propose(maxTxs, nil, false)
 	if panicked {
-		e.Violate("offer-not-executable", "offer-not-executable/"+site, "a block built by CreateBlock(%d)+PreRunBlock from the mempool's offer did not execute: %s (%s)", maxTxs, msg, e.describe(b))
+		key, detail := e.notExecKey(site, b)
+		if !e.Violate("offer-not-executable", key, "a block built by CreateBlock(%d)+PreRunBlock from the mempool's offer did not execute: %s (%s) %s", maxTxs, msg, e.describe(b), detail) {
+			e.flushPool()
+		}
 		return nil
 	}
 	e.checkOffer(b.Data.Txs, fmt.Sprintf("CreateBlock(%d)", maxTxs), false)
@@ -1059,6 +1107,16 @@ func (e *Engine) onCommitted(b *types.Block) {
 		}
 	}
 	e.noteUtxoCommitted(b)
+	if len(e.pendingCreate) > 0 {
+		keep := e.pendingCreate[:0]
+		for _, a := range e.pendingCreate {
+			if e.contractAt[a] == nil {
+				keep = append(keep, a)
+			}
+		}
+		e.pendingCreate = keep
+	}
+	e.checkLedger()
 	e.sinceCommit = true
 	if e.Opt.AfterCommit != nil {
 		e.Opt.AfterCommit(e, b)
@@ -1081,6 +1139,7 @@ func (e *Engine) externalBlock() {
 		}
 	}
 	nExt := t.Range(1, 3)
+	killed := map[common.Address]bool{}
 	useFlight := t.Bool(1, 2)
 	rival := t.Bool(1, 2)
 	for _, u := range e.W.Users {
@@ -1108,6 +1167,20 @@ func (e *Engine) externalBlock() {
 					}
 				}
 			}
+			kindExt := "external"
+			if cand == nil && e.Cfg.Contracts && t.Bool(1, 2) && led.Get(u.Addr).Balance.Cmp(new(big.Int).Mul(big.NewInt(2*gasCreate), GasPrice)) > 0 {
+				if cs := e.aliveContracts(); len(cs) > 0 && t.Bool(2, 3) {
+					c := cs[t.Int(len(cs))]
+					if !killed[c.Addr] {
+						cand = e.killTx(u, n, c)
+						killed[c.Addr] = true
+						kindExt = "kill"
+					}
+				} else {
+					cand, _ = e.creationTx(u, n)
+					kindExt = "create"
+				}
+			}
 			if cand == nil {
 				amt := big.NewInt(int64(2000 + t.Int(5000)))
 				cand = u.Transfer(n, e.W.Sinks[t.Int(len(e.W.Sinks))], amt, 0, nil)
@@ -1115,7 +1188,12 @@ func (e *Engine) externalBlock() {
 			if led.Get(u.Addr).Balance.Cmp(Cost(cand)) < 0 {
 				break
 			}
-			m := e.record(u, cand, "external")
+			m := e.record(u, cand, kindExt)
+			if kindExt == "kill" {
+				m.Target = *cand.To()
+			} else if kindExt == "create" {
+				m.Target = crypto.CreateAddress(u.Addr, cand.Nonce(), cand.Data())
+			}
 			if !m.Accepted && !e.everAcc[m.Hash] && e.inflightHash(m.Hash) == nil {
 				m.External = true
 			}
@@ -1269,7 +1347,7 @@ done:
 	mc := e.W.Cfg.Mem
 	c.Sample(map[string]interface{}{
 		"users": len(e.W.Users), "vals": e.W.Cfg.NVals, "trie": e.W.Cfg.IsTrie, "cache": e.Cfg.UseCache, "tight": e.Cfg.Tight, "evict": e.Cfg.Evict,
-		"size": mc.Size, "future": mc.FutureSize, "maxReap": mc.MaxReapSize, "acctQueue": mc.AccountQueue, "removeFuture": mc.RemoveFutureTx, "utxo": e.Cfg.UTXO, "utxoSize": mc.UTXOSize,
+		"size": mc.Size, "future": mc.FutureSize, "maxReap": mc.MaxReapSize, "acctQueue": mc.AccountQueue, "removeFuture": mc.RemoveFutureTx, "utxo": e.Cfg.UTXO, "contracts": e.Cfg.Contracts, "utxoSize": mc.UTXOSize,
 		"steps": e.steps, "blocks": nBlocks, "committed": nTx, "generated": len(e.all), "trace": e.trace,
 	})
 }
